@@ -88,10 +88,10 @@ Record rel_ok (c : cfg) (RS : st -> st -> Prop) (RW : world -> world -> Prop) : 
   rw_on_vec : forall A vid (m : M st A), pres RS m -> pres RW (on_vec vid m)
 }.
 
-(** the six script steps that create, replace or drop a vector object are handled per relation *)
+(** the seven script steps that create, replace or drop a vector object are handled per relation *)
 Definition regular (o : op) : bool :=
   match o with
-  | ONew _ _ | OWithCapacity _ _ _ | ODropVec _ | OClone _ _ | OCloneEmpty _ _ | OCloneEmptyIn _ _ _ => false
+  | ONew _ _ | OWithCapacity _ _ _ | ODropVec _ | OClone _ _ | OCloneEmpty _ _ | OCloneEmptyIn _ _ _ | OCloneIn _ _ _ => false
   | _ => true
   end.
 
@@ -411,6 +411,15 @@ Section Machine.
        | |- wpres (if ?b then _ else _) => destruct b
        | |- wpres (match ?x with _ => _ end) => destruct x
        end ].
+
+  (** the caller's use of a vector obtained from [clone_empty_in], given its whole-vector clone *)
+  Lemma wp_clone_in_body n k : (forall m, wpres (clone_and_drop c m)) -> wpres (clone_in_body c n k).
+  Proof.
+    intros Hcd. unfold clone_in_body. wpx. apply wp_repeat_m. wpx.
+  Qed.
+  Lemma wp_clone_in_run n k : (forall m, wpres (clone_and_drop c m)) ->
+    wpres (bind (unwinding (clone_in_body c n k) (on_vec n (drop_vec c))) (fun r => bind (on_vec n (drop_vec c)) (fun _ => ret r))).
+  Proof. intros Hcd. pose proof (wp_clone_in_body n k Hcd). wpx. Qed.
 
   (** every script step that does not create, replace or drop a vector object *)
   Theorem exec_regular o : regular o = true -> wpres (exec c o).
@@ -916,6 +925,38 @@ Proof. cbn [exec]. apply l_bind; [apply l_peek|intros sv]. apply wp_build_into. 
 Lemma wp_exec_clone_empty_in c v dst bk : wpres c (exec c (OCloneEmptyIn v dst bk)).
 Proof. cbn [exec]. apply l_bind; [apply l_peek|intros sv]. apply wp_build_into. Qed.
 
+(** the caller's own clone of a vector: built from nothing, returned entirely *)
+Lemma l_clone_and_drop c n : wpres c (clone_and_drop c n).
+Proof.
+  intros w. unfold clone_and_drop. destruct (get_vec n w) as [cv|]; [|apply Rw_refl].
+  pose proof (clone_vec_new c cv cv (wuw w)) as H.
+  destruct (clone_vec c cv (cv, wuw w)) as [a [cl u]|p [cl u]|f]; auto.
+  - pose proof (l_drop_vec c (cl, u)) as H1. pose proof (drop_vec_none c (cl, u)) as H2.
+    destruct (drop_vec c (cl, u)) as [b [v' u']|p [v' u']|f]; auto;
+      (eapply Rw_gone; apply Rnew_gone; [eapply Rnew_Rst; eauto|exact H2]).
+  - eapply Rw_gone; eauto.
+Qed.
+Lemma live_blocks_app c l1 l2 : live_blocks c (l1 ++ l2) = live_blocks c l1 ++ live_blocks c l2.
+Proof. unfold live_blocks. apply flat_map_app. Qed.
+(** the scratch slot goes out of scope (whatever it still owned is the caller's leak; see [clone_in_returns]) *)
+Lemma Rw_strip c w n : Rw c w {| wv := firstn n (wv w); wuw := wuw w |}.
+Proof.
+  exists [], (live_blocks c (skipn n (wv w))). cbn [wv wuw]. split; [reflexivity|]. split; [constructor|].
+  intros L. constructor. rewrite <- (firstn_skipn n (wv w)) at 1. rewrite live_blocks_app, <- app_assoc. reflexivity.
+Qed.
+Lemma wp_exec_clone_in c v bk k : wpres c (exec c (OCloneIn v bk k)).
+Proof.
+  cbn [exec]. apply l_bind; [apply l_peek|intros sv]. intros w.
+  pose proof (mem_build_new c bk sv (wuw w)) as H.
+  destruct (mem_build c bk (sv, wuw w)) as [a [nv u]|p [nv u]|f]; auto.
+  2:{ injection H as _ ->. destruct w; apply Rw_refl. }
+  destruct H as [H _]. pose proof (Rw_new c w (length (wv w)) sv nv u H) as H1.
+  set (w1 := put_vec (length (wv w)) (Some nv) u w) in *.
+  pose proof (wp_clone_in_run c _ _ (ledger_ok c) (length (wv w)) k (l_clone_and_drop c) w1) as H2.
+  match goal with |- match (match ?m w1 with _ => _ end) with _ => _ end => destruct (m w1) as [r w2|p w2|f] end; auto;
+    (eapply Rw_trans; [exact H1|]; eapply Rw_trans; [exact H2|]; apply Rw_strip).
+Qed.
+
 (** ** EVERY script step, whatever the operation and its outcome *)
 Theorem exec_ledger c o : wpres c (exec c o).
 Proof.
@@ -927,6 +968,7 @@ Proof.
   - apply wp_exec_clone.
   - apply wp_exec_clone_empty.
   - apply wp_exec_clone_empty_in.
+  - apply wp_exec_clone_in.
 Qed.
 (** ... as [run_step] runs it: fresh log, any fuse; a fault (never reached, by the other theorems) leaves the
     world as it was *)
@@ -1236,7 +1278,7 @@ Qed.
 
 Definition heapfree_op (o : op) : Prop :=
   match o with
-  | ONew _ bk | OWithCapacity _ bk _ | OCloneEmptyIn _ _ bk => bk <> BHeap
+  | ONew _ bk | OWithCapacity _ bk _ | OCloneEmptyIn _ _ bk | OCloneIn _ bk _ => bk <> BHeap
   | _ => True
   end.
 
@@ -1253,6 +1295,24 @@ Proof.
     apply heapless_set_nth; [cbn; rewrite Hb; exact (Hbk Hl)|exact Hl].
   - injection H as _ ->. destruct w; apply Rw2_refl.
 Qed.
+
+Lemma na_clone_and_drop c n : pres Rw2 (clone_and_drop c n).
+Proof.
+  intros w. unfold clone_and_drop. destruct (get_vec n w) as [cv|] eqn:Hg; [|apply Rw2_refl].
+  pose proof (clone_vec_na c cv cv (wuw w)) as H.
+  destruct (clone_vec c cv (cv, wuw w)) as [a [cl u]|p [cl u]|f]; auto.
+  - pose proof (sp_drop_vec c _ _ (noalloc_ok c) (cl, u)) as H1.
+    assert (X : forall v' u', Rna (cl, u) (v', u') -> Rw2 w {| wv := wv w; wuw := u' |}).
+    { intros v' u' [_ H2] Hl. cbn [wv wuw fst snd] in *. split; [exact Hl|].
+      destruct (H (heapless_get _ _ _ Hl Hg)) as (Hb & e1 & A1 & N1).
+      destruct H2 as (e2 & A2 & N2); [rewrite Hb; exact (heapless_get _ _ _ Hl Hg)|].
+      exists (e1 ++ e2). split; [|apply noalloc_app; assumption].
+      unfold appended in *. rewrite A2, A1, rev_app_distr, app_assoc. reflexivity. }
+    destruct (drop_vec c (cl, u)) as [b [v' u']|p [v' u']|f]; auto; exact (X v' u' H1).
+  - intros Hl. cbn [wv wuw]. split; [exact Hl|]. exact (proj2 (H (heapless_get _ _ _ Hl Hg))).
+Qed.
+Lemma heapless_firstn n l : heapless l -> heapless (firstn n l).
+Proof. unfold heapless. revert l. induction n as [|n IH]; intros l H; destruct l; cbn [firstn]; auto. inversion H; subst. constructor; auto. Qed.
 
 Theorem exec_noalloc c o : heapfree_op o -> pres Rw2 (exec c o).
 Proof.
@@ -1298,6 +1358,18 @@ Proof.
     intros w. unfold bind, peek_vec. destruct (get_vec v w) as [sv|] eqn:Hg; [|apply Rw2_refl].
     pose proof (Rw2_build c bk sv dst w (fun _ => Hop)) as H.
     destruct (mem_build c bk (sv, wuw w)) as [a [nv u]|p [nv u]|f]; exact H.
+  - (* OCloneIn *)
+    intros w. unfold bind at 1. unfold peek_vec. destruct (get_vec v w) as [sv|] eqn:Hg; [|apply Rw2_refl].
+    pose proof (Rw2_build c bk sv (length (wv w)) w (fun _ => Hop)) as H1.
+    destruct (mem_build c bk (sv, wuw w)) as [a [nv u]|p [nv u]|f]; auto.
+    set (w1 := put_vec (length (wv w)) (Some nv) u w) in *.
+    pose proof (wp_clone_in_run c _ _ OK (length (wv w)) k (na_clone_and_drop c) w1) as H2.
+    assert (X : forall w2, Rw2 w1 w2 -> Rw2 w {| wv := firstn (length (wv w)) (wv w2); wuw := wuw w2 |}).
+    { intros w2 Hw Hl. destruct (H1 Hl) as (Hl1 & e1 & A1 & N1). destruct (Hw Hl1) as (Hl2 & e2 & A2 & N2).
+      cbn [wv wuw]. split; [apply heapless_firstn; exact Hl2|].
+      exists (e1 ++ e2). split; [|apply noalloc_app; assumption].
+      unfold appended in *. rewrite A2, A1, rev_app_distr, app_assoc. reflexivity. }
+    match goal with |- match (match ?m w1 with _ => _ end) with _ => _ end => destruct (m w1) as [r w2|p w2|f] end; auto.
 Qed.
 
 Theorem step_noalloc c fuse o w :
